@@ -120,7 +120,27 @@ class Check(PropertyCheck):
         tr = gen.Tracker(jobs)
         M = slices.num_machines_of(jobs)
         n_acc = 0
+        late_kind = None
+        if rng.random() < 0.15:
+            # one of the two reward observers is created LATE (in the middle of the first episode): judged from the next reset on
+            late_kind = rng.choice(["makespan_reward", "idle_reward"])
+            for pos, l in enumerate(list(lines)):
+                if l in ("obs " + late_kind, "obsn " + late_kind):
+                    del lines[pos:pos + (2 if l.startswith("obsn") else 1)]
+                    kinds.remove(late_kind)
+                    break
+            # (ids of the `resub` lines that follow refer to positions in `kinds`: rebuild them)
+            lines[:] = [l for l in lines if not l.startswith(("obs", "resub"))]
+            for idx, k in enumerate(kinds):
+                lines.append("obs " + k)
+        late_at = rng.randint(1, max(1, gen.num_ops(jobs) - 1)) if late_kind else None
         while not tr.done():
+            if late_kind and n_acc == late_at:
+                lines += ["obs " + late_kind, "wsnap", "reset", "wsnap"]
+                kinds.append(late_kind)
+                tr.reset()
+                late_kind = None
+                continue
             r = rng.random()
             if r < 0.1:
                 bad = gen.gen_invalid_request(rng, tr, M)
